@@ -46,6 +46,7 @@ type inTrial struct {
 	HasObs     bool        `json:"has_obs"`
 	Metrics    []inMetric  `json:"metrics"`
 	Assign     [][2]string `json:"assign"`
+	Created    int64       `json:"created,omitempty"` // creationTimestamp, seconds after a fixed instant (0: none, as on fake-client objects)
 }
 type inOptimal struct {
 	Name    string      `json:"name"`
@@ -316,6 +317,12 @@ func (d drv) Gen(r *rand.Rand, i, n int) any {
 	for k := 0; k < nt; k++ {
 		in.Trials = append(in.Trials, genTrial(r, fmt.Sprintf("t%d", k), text))
 	}
+	if r.Intn(3) > 0 {
+		// creation times as the API server stamps them; the List answer (by name) is not in creation order
+		for k := range in.Trials {
+			in.Trials[k].Created = int64(1 + 3*k + r.Intn(3))
+		}
+	}
 	r.Shuffle(len(in.Trials), func(a, b int) { in.Trials[a], in.Trials[b] = in.Trials[b], in.Trials[a] })
 	if nt >= 2 && r.Intn(100) < 5 {
 		in.Trials[r.Intn(nt)].Name = in.Trials[r.Intn(nt)].Name
@@ -434,6 +441,9 @@ func build(in input) (*experimentsv1beta1.Experiment, *trialsv1beta1.TrialList) 
 	tl := &trialsv1beta1.TrialList{}
 	for _, t := range in.Trials {
 		tr := trialsv1beta1.Trial{ObjectMeta: metav1.ObjectMeta{Name: t.Name, Namespace: "ns"}}
+		if t.Created != 0 {
+			tr.CreationTimestamp = metav1.NewTime(time.Date(2024, 3, 5, 10, 0, 0, 0, time.UTC).Add(time.Duration(t.Created) * time.Second))
+		}
 		tr.Spec.Objective = &commonv1beta1.ObjectiveSpec{Type: commonv1beta1.ObjectiveType(in.ObjType), ObjectiveMetricName: t.ObjMetric}
 		for _, s := range t.Strategies {
 			tr.Spec.Objective.MetricStrategies = append(tr.Spec.Objective.MetricStrategies,
@@ -639,14 +649,14 @@ func (p *printer) spec(e *experimentsv1beta1.Experiment) string {
 }
 
 type observed struct {
-	Conditions []string       `json:"conditions"`
-	Completion string         `json:"completion_time"`
-	Lists      map[string]any `json:"lists"`
-	Counters   map[string]int `json:"counters"`
-	Optimal    any            `json:"optimal"`
-	Succeeded  int            `json:"collector_succeeded_inc"`
-	Failed     int            `json:"collector_failed_inc"`
-	Restartable bool          `json:"restartable"`
+	Conditions  []string       `json:"conditions"`
+	Completion  string         `json:"completion_time"`
+	Lists       map[string]any `json:"lists"`
+	Counters    map[string]int `json:"counters"`
+	Optimal     any            `json:"optimal"`
+	Succeeded   int            `json:"collector_succeeded_inc"`
+	Failed      int            `json:"collector_failed_inc"`
+	Restartable bool           `json:"restartable"`
 }
 
 func (d drv) Run(inp any) kit.Case {
